@@ -170,6 +170,19 @@ func main() {
 			if len(h.Tracks) != 1 || h.Variant == 3 {
 				continue
 			}
+			if i%3 == 2 && h.Variant == 1 {
+				// MPEG-TS, Directory: a disk that is full now and then - Write calls on the segment file fail (the
+				// flush when a segment is closed among them); the segment that could not be closed must not stay
+				// behind in Directory
+				h.Disk = true
+				for k := 3; k < 4000; k++ {
+					if r.Bool(1, 25) {
+						h.WriteFaults = append(h.WriteFaults, k)
+					}
+				}
+				fhs = append(fhs, h)
+				continue
+			}
 			// each NewFile call after the first two fails with probability 1/6
 			for k := 2; k < 600; k++ {
 				if r.Bool(1, 6) {
